@@ -29,6 +29,7 @@ b04bf84); `cfg.rejectNotifies` = workerPool.Submit calls the task's handler when
 import LinVerif.Lemmas.C19Carried
 import LinVerif.Lemmas.C19Recover
 import LinVerif.Lemmas.C19Term
+import LinVerif.Lemmas.C19Pool
 import LinVerif.Generated.C19
 
 namespace LinVerif.Props.C19
@@ -234,6 +235,21 @@ theorem response_error_carried (sr rn collectFails : Bool) (root : Stage) (hc : 
       have harg : f.arg = true := error_carried sr rn root s hr f (by rw [hfd]; simp) (by rw [hfb]; exact hfl)
       simp [runResponses, sendResponseCalls, hfd, Leaf.sendResponse, Leaf.init, harg]
 
+/-! ## Submit racing Stop (internal/concurrent/pool.go) -/
+
+/-- **reject_xor_execute.** `workerPool.Submit` as it is (no re-check of `Stopped()` after the send):
+whatever the interleaving of the Submit call — including a send that stays blocked on the full queue
+for any time — with `Pool.Stop()`, a cancellation of the context and the consumers of the queue, the
+task is never both rejected and executed, it is executed at most once and rejected at most once.
+(Rejecting calls the stage's `errHandle`, executing completes the stage too: both would complete the
+stage twice and take `pending` below zero.) -/
+theorem reject_xor_execute (es : List PoolSubmit.Ev) (s : PoolSubmit.St)
+    (h : PoolSubmit.run false PoolSubmit.init es = some s) :
+    ¬ (s.rejected ≥ 1 ∧ s.executed ≥ 1) ∧ s.executed ≤ 1 ∧ s.rejected ≤ 1 := by
+  have hc := PoolSubmit.count_le_one (PoolSubmit.inv_run es _ s PoolSubmit.inv_init h)
+  simp only [PoolSubmit.count] at hc
+  refine ⟨fun ⟨h1, h2⟩ => ?_, ?_, ?_⟩ <;> omega
+
 /-! ## non-vacuity -/
 
 /-- fan-out 2 under a synchronous root, one pooled child failing: a complete run -/
@@ -357,6 +373,12 @@ theorem two_responses_if_process_returns_error :
       (fun s => (terminalB s, runResponses ⟨true, true, false⟩ false false s, runResponses ⟨false, true, false⟩ false false s))
       = some (true, [true, true], [true]) := by decide
 
+/-- with a re-check of `Stopped()` after the send (the seeded change c19-7) a task whose Submit was
+past the first check when `Stop()` came is rejected by the re-check AND executed by the drain -/
+theorem rejected_and_executed_with_recheck :
+    PoolSubmit.run true PoolSubmit.init [.submitCheck, .stop, .submitSend, .submitRecheck, .consume]
+      = some ⟨.done, true, false, false, 1, 1⟩ := by decide
+
 /-- if the failing group-by collect answered through the unguarded `sendResponse` (the seeded change
 c19-8), the CAS would not be taken and the completion callback would answer the same request again:
 every stage succeeds, two responses -/
@@ -391,6 +413,8 @@ theorem tie_baseStageIsAsync : Generated.C19.baseStageIsAsyncSteps = baseStageIs
 theorem tie_execTask : Generated.C19.execTaskSteps = execTaskOrder := by decide
 theorem tie_submit : Generated.C19.submitSteps = submitOrder currentCfg.rejectNotifies := by decide
 theorem tie_reject : Generated.C19.rejectSteps = rejectOrder currentCfg.rejectNotifies := by decide
+/-- `Submit` does nothing after `p.tasks <- task` (hypothesis `recheck = false` of `reject_xor_execute`) -/
+theorem tie_submitNoRecheck : Generated.C19.submitRechecksStopped = false := by decide
 theorem tie_sendResponse : Generated.C19.sendResponseSteps = sendResponseOrder := by decide
 theorem tie_leafProcess : Generated.C19.leafProcessSteps = leafProcessOrder := by decide
 theorem tie_leafProcessDataSearch : Generated.C19.leafProcessDataSearchSteps = leafProcessDataSearchOrder := by decide
